@@ -86,8 +86,16 @@ def dfbox_part(ctx, count):
         df = pd.DataFrame({"a": [np.nan if r[0] is None else r[0] for r in rows], "b": [np.nan if r[1] is None else r[1] for r in rows],
                            "c": [np.nan if r[2] is None else r[2] for r in rows]}, dtype=float)
         xs = sorted([rng.randint(-4, 20) / 4, rng.randint(-4, 20) / 4]); ys = sorted([rng.randint(-4, 20) / 4, rng.randint(-4, 20) / 4])
+        # index of the frame: the helper promises row POSITIONS, whatever the labels are
+        ik = rng.choice(["range", "range", "shifted", "shuffled_labels", "strings"])
+        if n and ik == "shifted":
+            df.index = range(100, 100 + n)
+        elif n and ik == "shuffled_labels":
+            lab = list(range(n)); rng.shuffle(lab); df.index = lab
+        elif n and ik == "strings":
+            df.index = [f"s{i}" for i in range(n)]
         ctx.evaluations += 1
-        ctx.count("dfbox" + ("_nan" if any(None in r for r in rows) else ""))
+        ctx.count("dfbox" + ("_nan" if any(None in r for r in rows) else "") + ":" + ik)
         before = df.copy()
         real = list(U.get_constrained_sensors_indices_dataframe(xs[0], xs[1], ys[0], ys[1], df, X_axis="a", Y_axis="b"))
         if not before.equals(df):
